@@ -750,6 +750,26 @@ snarf_dt(const char *eof, const char *vp, const char *const ep)
 	return res;
 }
 
+static void
+cat_dtlst(struct dtlst_s *restrict tgt, struct dtlst_s src)
+{
+/* there may be several RDATE/EXDATE lines, keep them all */
+	echs_instant_t *tmp;
+
+	if (tgt->ndt == 0U) {
+		*tgt = src;
+		return;
+	}
+	tmp = realloc(tgt->dt, (tgt->ndt + src.ndt) * sizeof(*tgt->dt));
+	if (LIKELY(tmp != NULL)) {
+		memcpy(tmp + tgt->ndt, src.dt, src.ndt * sizeof(*src.dt));
+		tgt->dt = tmp;
+		tgt->zdt = tgt->ndt += src.ndt;
+	}
+	free(src.dt);
+	return;
+}
+
 static struct dtlst_s
 snarf_dtlst(const char *eof, const char *vp, const char *const ep)
 {
@@ -875,10 +895,10 @@ snarf_fld(struct ical_vevent_s ve[static 1U],
 			}
 			switch (fld) {
 			case FLD_XDATE:
-				ve->xdat = l;
+				cat_dtlst(&ve->xdat, l);
 				break;
 			case FLD_RDATE:
-				ve->rdat = l;
+				cat_dtlst(&ve->rdat, l);
 				break;
 			}
 		}
@@ -2249,6 +2269,27 @@ send_evical_vevent(int whither, echs_const_evstrm_t s)
 		return;
 	}
 	send_ev(whither, this->ev[this->i], 0U);
+	/* the dates to come go as RDATEs, the one above included as DTSTART
+	 * isn't an occurrence in the presence of RDATEs, mind the parser's
+	 * line limit */
+	for (size_t j = this->i; this->nev > 1U && j < this->nev; j++) {
+		char stmp[32U];
+		size_t ztmp;
+
+		if (!((j - this->i) % 32U)) {
+			if (j > this->i) {
+				fdputc('\n');
+			}
+			fdwrite("RDATE:", strlenof("RDATE:"));
+		} else {
+			fdputc(',');
+		}
+		ztmp = dt_strf_ical(stmp, sizeof(stmp), this->ev[j].from);
+		fdwrite(stmp, ztmp);
+		if (j + 1U >= this->nev) {
+			fdputc('\n');
+		}
+	}
 	return;
 }
 
